@@ -63,7 +63,8 @@ def run(chk: Check):
         info[tid] = (name, list(errs), scale, bound, ctx)
         chk.case((name, tid))
 
-    combos = [("uhf", dict(orbital_rotation=True, do_sr=True), (2, 2, 2)), ("uhf", dict(orbital_rotation=False, do_sr=True), (2, 1, 1))]
+    combos = [("uhf", dict(orbital_rotation=True, do_sr=True), (2, 2, 2)), ("uhf", dict(orbital_rotation=False, do_sr=True), (2, 1, 1)),
+              ("rhf", dict(orbital_rotation=True, do_sr=True), (2, 1, 1)), ("uhf", dict(orbital_rotation=False, do_sr=False), (2, 2, 1))]
     if big:
         combos += [("rhf", dict(orbital_rotation=True, do_sr=True), (2, 2, 1)), ("uhf", dict(orbital_rotation=True, do_sr=False), (3, 2, 1)),
                    ("uhf", dict(orbital_rotation=False, do_sr=False), (2, 2, 1)), ("rhf", dict(orbital_rotation=False, do_sr=True), (3, 1, 2))]
@@ -73,13 +74,20 @@ def run(chk: Check):
                                                    trial_kind=wt, walker_type=wt, n_walkers=4, dt=0.02, vscale=0.3))
         pd0 = runlevel.init_prop_data(sysd, 60 + ci)
         pd0["weights"] = jnp.array([0.7, 1.3, 1.1, 0.9])
+        # as in a driver run, the stored overlaps handed to an entry point are stale (QR + global reconfiguration
+        # happened after the previous block): every entry point has to refresh them itself
+        pd0["overlaps"] = pd0["overlaps"] * (0.83 + 0.4j) - 0.02
         smp = S(n_prop_steps=blk[0], n_ene_blocks=blk[1], n_sr_blocks=blk[2], n_blocks=1)
         norb = sysd["norb"]
         obs = []
         for k in range(3):
             a = rng.normal(size=(norb, norb))
             b = rng.normal(size=(norb, norb))
-            obs.append(np.array([(a + a.T) / 2, (b + b.T) / 2 if wt == "uhf" else (a + a.T) / 2]))
+            if k == 1:      # "every observable matrix": a non-symmetric one (upper triangle only)
+                a, b = np.triu(a), np.triu(b)
+                obs.append(np.array([a, b if wt == "uhf" else a]))
+            else:
+                obs.append(np.array([(a + a.T) / 2, (b + b.T) / 2 if wt == "uhf" else (a + a.T) / 2]))
         ctx = {"walker_type": wt, "options": o, "block": list(blk)}
         site = f"{wt}:{'rot' if o['orbital_rotation'] else 'norot'}:{'sr' if o['do_sr'] else 'nosr'}"
         try:
@@ -103,9 +111,10 @@ def run(chk: Check):
             rel_trace(f"rdm-trace:{site}", [max(abs(np.trace(rdm[0]) - nelec[0]), abs(np.trace(rdm[1]) - nelec[1]))], 1.0, 1e-6, ctx=ctx)
         # finite differences of the same deterministic function (same seed), first observable
         f = entry_fn(sysd, smp, o)
-        op = jnp.array(obs[0])
-        errs, used = [], []
-        for h in HS:
+        for kobs in (0, 1):
+          op = jnp.array(obs[kobs])
+          errs, used = [], []
+          for h in HS:
             proxies.reset()
             ep, _ = f(h, op, runlevel.copy_prop_data(pd0))
             sp = discrete_signature(proxies.snapshot())
@@ -115,13 +124,14 @@ def run(chk: Check):
             if sp != sm:
                 continue
             used.append(h)
-            errs.append(abs((float(ep) - float(em)) / (2 * h) - fwd[0]["deriv"]))
-        chk.note(f"fd_steps_used_{ci}", used)
-        if len(errs) >= 2:
+            errs.append(abs((float(ep) - float(em)) / (2 * h) - fwd[kobs]["deriv"]))
+          chk.note(f"fd_steps_used_{ci}_{kobs}", used)
+          if len(errs) >= 2:
             # the error must not grow as h shrinks (slack 1.5 for round-off) and be small at the finest usable h
-            rel_trace(f"fd-vs-fwd:{site}", errs, fwd[0]["deriv"], 1e-4 if used[-1] <= 1e-3 else 1e-3, lo=(2, 3), ctx=dict(ctx, steps=used))
+            rel_trace(f"fd-vs-fwd:{site}", errs, fwd[kobs]["deriv"], 1e-4 if used[-1] <= 1e-3 else 1e-3, lo=(2, 3),
+                      ctx=dict(ctx, steps=used, observable=kobs))
         chk.sample({"case": ctx, "E_plain": e_plain, "E_forward": e_f, "E_reverse": e_r, "jvp": fwd[0]["deriv"],
-                    "rdm_dot_O": float(np.sum(rdm * obs[0])), "fd_residuals": dict(zip(map(str, used), errs))}, limit=4)
+                    "rdm_dot_O": float(np.sum(rdm * obs[0])), "fd_residuals_last_observable": dict(zip(map(str, used), errs))}, limit=4)
     # ------------------------------------------------------------------ exactly solvable one-body limit
     reqs, lim = [], {}
     for li in range(4 if big else 2):
